@@ -66,7 +66,7 @@ theorem store_invariant (s : State) (ops : List Op) (inv : StoreInv s) : StoreIn
 /-- a fresh chain (nothing quarantined) satisfies the store invariant -/
 theorem init_inv (h : Addr) (rd : List Denom) (xf : List Addr) (b : Ledger) : StoreInv (init h rd xf b) :=
   ⟨fun _ he => by simp [init] at he, by simp [KeysNodup, init], fun _ he => by simp [init] at he,
-   fun _ he => by simp [init] at he⟩
+   fun _ he => by simp [init] at he, fun _ he => by simp [init] at he⟩
 
 /-- the holder address never changes -/
 theorem holder_constant (s : State) (ops : List Op) (inv : StoreInv s) : (run s ops).holder = s.holder :=
@@ -401,6 +401,50 @@ theorem accept_record_fate {s s' : State} {to : Addr} {froms : List Addr} {perm 
           exact List.mem_filterMap.mpr ⟨k2, hk, hg⟩
       · rfl
 
+/-- **An accept never fails** for lack of funds or for any other reason, in any state whose
+holder covers the records: the loop pays every completed record out of the holder. -/
+theorem accept_never_fails {s : State} (inv : StoreInv s) (hcov : HolderCovers s) (to : Addr) (froms : List Addr)
+    (perm : Bool) (hf : froms ≠ []) : ∃ s' rel, exec s (.accept to froms perm) = .ok (s', rel) := by
+  obtain ⟨s1, rel1, h1⟩ := acceptLoop_succeeds to froms _ s [] inv (getQuarantineRecords_snapshot inv to froms) hcov
+  have hfe : froms.isEmpty = false := by cases froms with
+    | nil => exact absurd rfl hf
+    | cons a t => rfl
+  simp only [exec, msgAccept, hfe, Bool.false_eq_true, if_false, acceptQuarantinedFunds, h1]
+  exact ⟨_, _, rfl⟩
+
+/-- **Never lost: quarantined funds can always be claimed.** After any history in which the
+holder signs nothing, for every record on file for a receiver `to`: the receiver's accept of
+that record's unaccepted senders succeeds, removes the record, and credits `to` with at least
+the record's coins. -/
+theorem funds_always_claimable (s0 : State) (ops : List Op) (inv0 : StoreInv s0) (hcov0 : HolderCovers s0)
+    (hsign : ∀ op ∈ ops, op.holderNeverSigns s0.holder = true)
+    {to : Addr} {k : Suffix} {r : Record} (hmem : ((to, k), r) ∈ (run s0 ops).recs) (hto : to ≠ s0.holder)
+    (perm : Bool) :
+    ∃ s' rel, exec (run s0 ops) (.accept to r.unacc perm) = .ok (s', rel) ∧ kvGet s'.recs (to, k) = none ∧
+      ∀ d, Ledger.bal (run s0 ops).bank to d + Coins.amountOf r.coins d ≤ Ledger.bal s'.bank to d := by
+  have inv := store_invariant s0 ops inv0
+  have hcov := holder_covers_records s0 ops inv0 hcov0 hsign
+  have hh := holder_constant s0 ops inv0
+  have hne : r.unacc ≠ [] := by
+    intro e
+    have := inv.nfa _ hmem
+    simp [Record.isFullyAccepted, e] at this
+  have hcomp : completes r.unacc r = true := by
+    unfold completes
+    rw [List.all_eq_true]
+    intro a ha
+    simpa using ha
+  obtain ⟨s', rel, hex⟩ := accept_never_fails inv hcov to r.unacc perm hne
+  refine ⟨s', rel, hex, ?_, ?_⟩
+  · have hfate := accept_record_fate inv hex (to, k)
+    rw [kvGet_of_mem_nodup inv.nodup hmem] at hfate
+    simpa [hcomp] using hfate
+  · intro d
+    rw [(accept_pays_completed_records inv hex).2.1 to d, hh]
+    have := le_expReleased_of_mem (d := d) hmem hcomp (fun x hx => inv.nonneg x hx d)
+    simp [Ne.symm hto]
+    omega
+
 /-! ### 6. the suffix index never loses a record -/
 
 /-- **Lookup by any sender finds every record containing that sender**: for every stored record
@@ -469,6 +513,8 @@ def s4 : State := run s0 (ops.take 4)
 example : (exec s4 (.accept "C" ["A"] false)).toBool = true := by decide
 example : expReleased s4.recs "C" ["A"] "aaa" = 5 := by decide
 example : s4.recs.length = 3 := by decide
+-- hypotheses of `funds_always_claimable` (with `s0`, `ops.take 4` above): a record of C, C is not the holder
+example : (("C", ["A"]), (⟨["A"], [], [("aaa", 5)], false⟩ : Record)) ∈ (run s0 (ops.take 4)).recs := by decide
 -- hypotheses of `index_complete`: a multi-sender record, looked up by its second sender only
 example : (("C", ["A", "B"]), (⟨["A", "B"], [], [("aaa", 3)], false⟩ : Record)) ∈ s4.recs := by decide
 example : (getQuarantineRecords s4 "C" ["B"]).length = 2 := by decide
